@@ -287,6 +287,7 @@ def call_interp(itp, form, xs, pts, ndim, out_dtype):
             r = itp(arr, out=out)
             return list(np.asarray(r).ravel())
         return list(np.asarray(itp(arr)).ravel())
+    # every other form is a mesh grid over the per-axis point lists `pts` ('mesh', 'mesh_out', 'mesh_1pt')
     mesh = sparse_meshgrid(*[np.array([flt(v) for v in p], dtype=float) for p in pts])
     shape = tuple(len(p) for p in pts)
     if form == 'mesh_out':
@@ -304,3 +305,135 @@ def mesh_points(pts):
     """product of per-axis point lists in C order (json)"""
     import itertools
     return [list(t) for t in itertools.product(*pts)]
+
+
+# ------------------------------------------------------------------ call histories on ONE function object
+NP_DT = {'int': 'int64', 'f32': 'float32', 'f64': 'float64', 'c64': 'complex64', 'c128': 'complex128'}
+LIM = 2 ** 31 - 1
+
+
+def exact_q(v):
+    """exact rational of a float (no snapping); NaN token if not finite / too wide for TLC"""
+    v = float(v)
+    if v != v or v in (float('inf'), float('-inf')):
+        return NANQ
+    fr = Fraction(v)
+    if abs(fr.numerator) > LIM or fr.denominator > LIM:
+        return NANQ
+    return [int(fr.numerator), int(fr.denominator)]
+
+
+def exact_arr(arr):
+    arr = np.asarray(arr)
+    out = []
+    for z in arr.ravel(order='C'):
+        if arr.dtype.kind in 'iu':
+            out.append([[int(z), 1], [0, 1]])
+        elif arr.dtype.kind == 'c':
+            out.append([exact_q(z.real), exact_q(z.imag)])
+        else:
+            out.append([exact_q(z), [0, 1]])
+    return out
+
+
+def make_hist_callable(fn, ndim, conv):
+    """ONE Python function object for the abstract function `fn` under calling convention `conv`."""
+    if fn['kind'] == 'pw':
+        theta = flt(fn['theta'])
+        scalar = lambda x: 0 if x[0] < theta else x[0]             # returns a Python int left of theta
+        native = lambda x: np.where(x[0] < theta, 0, x[0]) + 0 * sum(x[k] for k in range(ndim))
+    else:
+        terms = terms_of(fn['poly'], False)
+
+        def value(x):
+            res = 0
+            for c, e in terms:
+                t = c
+                for k, p in enumerate(e):
+                    if p:
+                        t = t * x[k] ** p
+                res = res + t
+            return res
+        scalar = native = value
+    if conv == 'vectorize_bare':
+        return odl.util.vectorize(scalar)
+    if conv == 'vectorize_f64':
+        return odl.util.vectorize(otypes=['float64'])(scalar)
+    if conv == 'native':
+        return lambda x: native(x)
+    if conv == 'native_view':            # returns the coordinate array itself (a view of the mesh)
+        return lambda x: x[0]
+    if conv == 'native_view_x':          # 1-d: returns its argument
+        return lambda x: x
+    if conv == 'native_view_last':       # N-d: returns the last coordinate array (broadcast by the library)
+        return lambda x: x[-1]
+    if conv == 'dual':
+        def f_dual(x, out=None):
+            if out is None:
+                return native(x)
+            out[:] = native(x)
+            return out
+        return f_dual
+    if conv == 'inplace':
+        def f_ip(x, out):
+            out[:] = native(x)
+        return f_ip
+    if conv == 'object':
+        class Fn(object):
+            def __call__(self, x):
+                return native(x)
+        return Fn()
+    raise ValueError(conv)
+
+
+def run_history(obj, hist, conc):
+    """Replays one behaviour: all calls on the SAME function object (and the same spaces). -> list of call records"""
+    cvs, fn, conv = obj['cvs'], obj['fn'], obj['conv']
+    ndim = len(cvs)
+    shape = tuple(len(c) for c in cvs)
+    f = make_hist_callable(fn, ndim, conv)
+    spaces, sfs = {}, {}
+    prev = None
+    calls = []
+    for c in hist:
+        rec = {'kind': c['kind'], 'dt': c['dt'], 'obs': [], 'err': ''}
+        calls.append(rec)
+        if c['kind'] == 'mutate':
+            try:
+                arr = prev.asarray() if hasattr(prev, 'asarray') else prev
+                if arr is not None and arr.flags.writeable:
+                    arr[...] = 7
+            except Exception:
+                pass
+            continue
+        dt = NP_DT[c['dt']]
+        try:
+            if dt not in spaces:
+                spaces[dt] = space_for(cvs, dt)
+            sp = spaces[dt]
+            if c['kind'] == 'element':
+                prev = sp.element(f)
+                arr = prev.asarray()
+            else:
+                sf = sfs.get(dt) if conc.get('reuse_sf') else None
+                if sf is None:
+                    sf = sfs[dt] = sampling_function(f, sp.domain, out_dtype=dt)
+                pts = sp.meshgrid if conc.get('points', 'mesh') == 'mesh' else sp.points().T
+                if c['kind'] == 'inplace':
+                    out = np.full(shape if conc.get('points', 'mesh') == 'mesh' else (int(np.prod(shape)),),
+                                  7777 if np.dtype(dt).kind in 'iu' else np.nan, dtype=dt)
+                    point_collocation(sf, pts, out=out)
+                    prev = out
+                else:
+                    prev = point_collocation(sf, pts)
+                arr = np.asarray(prev)
+            if arr.size != int(np.prod(shape)) or arr.dtype != np.dtype(dt):
+                rec['err'] = 'ShapeOrDtypeError'
+                rec['errmsg'] = 'shape %r dtype %s' % (arr.shape, arr.dtype)
+                break
+            rec['obs'] = exact_arr(arr.reshape(shape))
+        except Exception as e:
+            rec['err'] = type(e).__name__
+            rec['errmsg'] = '%s: %s' % (type(e).__name__, str(e)[:160])
+            break
+    return calls
